@@ -2,6 +2,27 @@
 """Regenerates MANIFEST.json from the table below (kept in one place so the
 manifest is valid at every commit).  Run:  python3 tools/mkmanifest.py"""
 import json, os, subprocess
+
+# additions of the fourth round of seeded changes (appended to the texts above)
+EXTRA = {
+ "C01": "  Syscall-name lookups (as the tracer makes them, x32 numbers included) are issued between the builds.",
+ "C02": "  Pathnames also go through the program's own descriptor links (/proc/self/fd/N, /dev/fd/N) whose targets are longer than 64 bytes.",
+ "C03": "  The configured ban error changes from batch to batch within one process.",
+ "C04": "  Also a launcher whose real ids differ from its effective ids.",
+ "C05": "  One base mount table is handed to two builders; a read-only bind whose source file system is read-only as a whole only during set-up is written to after the file system became writable again.",
+ "C06": "  Container launches also carry exec and cgroup descriptors together, and an interpreter script as the executable descriptor.",
+ "C07": "  Also setgroups refused in a user namespace.",
+ "C09": "  Usage one microsecond over the bound, with an oracle on verdict and measurement.",
+ "C10": "  A container killed under the host: each of 14 later calls must fail within seconds; a planted FIFO is opened through the RPC.",
+ "C12": "  Launches with refused id maps; callbacks failing after the program built its tree, with the init's children counted right after the run.",
+ "C13": "  Writable mounts named as string prefixes of one another; executables larger than 128 MiB.",
+ "C14": "  Open flags include O_NOFOLLOW / O_NONBLOCK; a batch with 25 KB of error text; batches of 253 and 254 succeeding items (the latter is the known finding).",
+ "C16": "  The launch steps are repeated with a program that runs under other ids; a traced run without a filter is killed while its descendants run.",
+ "C17": "  A call given up before it is made, next to other calls on its environment; an environment built on a thread whose later traced run fails to start.",
+ "C18": "  Configurations built one after the other in one process (cmd/runprog/config.GetConf) are compared with the same configuration built alone.",
+ "C19": "  Received messages stay in use until the end of their history (descriptor lists must not be reused); credentials may be asked for only at receive time.",
+ "C20": "  Memory limits at the top of the range and off page boundaries; Destroy of a group that still has sub-groups.",
+}
 ROOT = os.path.dirname(os.path.dirname(os.path.abspath(__file__)))
 
 CLAIMED = {
@@ -366,7 +387,7 @@ def main():
               "evidence_file": "evidence/%s.json" % i,
               "replay_cmd_template": "./check %s --replay {path}" % i,
               "engine": "coq-gs",
-              "level_claimed": {"category": "proof", "text": c["text"], "design_ref": c["design"]},
+              "level_claimed": {"category": "proof", "text": c["text"] + EXTRA.get(i, ""), "design_ref": c["design"]},
               "level_note": c["note"],
               "technique": c["technique"],
             })
